@@ -415,6 +415,12 @@ def rw_io(tl):
 
 
 def _rw_io_once(tl):
+    tl, c0 = rw_patterns(tl, [("self.read_line(&mut $I)?", "stdin_read_line(self, &mut $I)?")])
+    tl, c1 = _rw_io_once2(tl)
+    return tl, c0 + c1
+
+
+def _rw_io_once2(tl):
     """R10: I/O statements of execute.rs replaced by calls of trusted helpers:
        write!(W, "{}", E)  => io_write_display(W, E)
        W.flush().unwrap()  => io_flush(W)
